@@ -386,12 +386,22 @@ class Interp:
         if isinstance(cell, tuple) and cell and cell[0] == "multi":
             return self.join_vals(S, [self.read(S, c, p + tuple(path), site + (n,)) for n, (c, p) in enumerate(cell[1])], site)
         v = S.cells.get(cell, BOT)
-        return self.nav(S, v, path, site)
+        return self.nav(S, v, path, site, cell)
 
-    def nav(self, S, v, path, site):
+    def nav(self, S, v, path, site, cell=None):
         variant = None
         for n, pe in enumerate(path):
             tag = pe[0]
+            if cell is not None and isinstance(v, Seq) and tag in ("idx", "ci") and v.elem is not None:
+                # same element of the same sequence value read again in this straight-line state
+                mk = (cell, tuple(path[: n + 1]))
+                hit = S.emem.get(mk)
+                if hit is not None and hit[0] is v:
+                    v = hit[1]
+                    continue
+                seq0 = v
+            else:
+                mk = None
             if isinstance(v, Opaque):
                 return Opaque()
             if isinstance(v, Bot):
@@ -429,6 +439,8 @@ class Interp:
                         v = self.join_vals(S, [v.elems[k] for k in ks], site + (n,))
                 elif isinstance(v, Seq):
                     v = self.freshen(v.elem, S, site + (n,), v.efacts, elem_of=(v.len, s, site[1] if len(site) > 1 else None), prov=v.prov) if v.elem is not None else BOT
+                    if mk is not None:
+                        S.emem[mk] = (seq0, v)
                 else:
                     return Opaque()
             elif tag == "ci":
@@ -438,6 +450,8 @@ class Interp:
                     v = v.elems[k] if 0 <= k < len(v.elems) else BOT
                 elif isinstance(v, Seq):
                     v = self.freshen(v.elem, S, site + (n,), v.efacts, prov=v.prov, off=(None if fe else off)) if v.elem is not None else BOT
+                    if mk is not None:
+                        S.emem[mk] = (seq0, v)
                 else:
                     return Opaque()
             elif tag == "sub":
